@@ -11,6 +11,7 @@ import (
 	"go/types"
 	"math/big"
 	"os"
+	"regexp"
 	"sort"
 	"strings"
 
@@ -20,39 +21,40 @@ import (
 var maxInt64 = new(big.Int).SetUint64(9223372036854775807)
 
 type Frame struct {
-	fn        *ssa.Function
-	regs      map[ssa.Value]Val
-	cells     map[*ssa.Alloc]*cell
-	block     *ssa.BasicBlock
-	prev      *ssa.BasicBlock
-	pc        int
-	visits    map[int]int
-	variants  map[int][]*T // loop index -> variant at the head
-	heads     map[int]*Env // loop index -> environment at the last visit of the head
-	binds     map[string]Val
+	fn         *ssa.Function
+	regs       map[ssa.Value]Val
+	cells      map[*ssa.Alloc]*cell
+	block      *ssa.BasicBlock
+	prev       *ssa.BasicBlock
+	pc         int
+	visits     map[int]int
+	variants   map[int][]*T // loop index -> variant at the head
+	heads      map[int]*Env // loop index -> environment at the last visit of the head
+	binds      map[string]Val
 	implSlices map[int][]*cell
-	bindTypes map[string]types.Type
-	call      ssa.CallInstruction // call site in the parent frame (inlined frames)
-	site      string              // obligation name prefix for inlined code
-	wrap64    bool
-	callCount map[string]int
+	zeroOff    map[int][]*cell
+	bindTypes  map[string]types.Type
+	call       ssa.CallInstruction // call site in the parent frame (inlined frames)
+	site       string              // obligation name prefix for inlined code
+	wrap64     bool
+	callCount  map[string]int
 }
 
 type State struct {
-	frames   []*Frame
-	cellVals map[*cell]Val
-	heap     map[string]*T
-	facts    []*T
-	alloc    *T
-	alloc0   *T
-	pre      *State
-	events   []string // havoc events that may affect heap arrays not yet materialised ("*" or key prefix)
-	dead     bool
-	depth    int
-	nonnil   map[string]bool
-	iters    []iterState
-	unfilled []unfilledSlice
-	pending  []pendingInit
+	frames    []*Frame
+	cellVals  map[*cell]Val
+	heap      map[string]*T
+	facts     []*T
+	alloc     *T
+	alloc0    *T
+	pre       *State
+	events    []string // havoc events that may affect heap arrays not yet materialised ("*" or key prefix)
+	dead      bool
+	depth     int
+	nonnil    map[string]bool
+	iters     []iterState
+	unfilled  []unfilledSlice
+	pending   []pendingInit
 	instTerms []*T // terms at which quantified facts are instantiated by hand (slice indices, map keys)
 }
 
@@ -564,6 +566,9 @@ func (x *Exec) emit(st *State, name, kind string, goal *T, vals []*T) {
 		x.trivial[name]++
 		return
 	}
+	if containsForall(goal) && len(st.instTerms) > 0 {
+		goal = instRewrite(goal, st.instTerms)
+	}
 	q := &Query{Name: name, Facts: instantiateFacts(st.facts, st.instTerms), Goal: goal, Vals: vals, Axioms: x.autoAxioms}
 	x.obligs = append(x.obligs, &Oblig{Name: name, Func: x.topKey, Kind: kind, Query: q})
 	if kind != "frame" {
@@ -838,6 +843,18 @@ func (x *Exec) Verify(f *ssa.Function, c *FuncContract) {
 			st.assume(t)
 		}
 	}
+	// named locals declared inside loop bodies resolve to an unconstrained value until
+	// their declaration runs (so that invariants may mention them under a guard)
+	for _, b := range f.Blocks {
+		for _, in := range b.Instrs {
+			if al, ok := in.(*ssa.Alloc); ok && !al.Heap && al.Comment != "" && b.Index != 0 {
+				t := al.Type().(*types.Pointer).Elem()
+				c := x.newCell(al.Comment, t)
+				fr.cells[al] = c
+				st.cellSet(c, x.freshVal(st, t, "undecl!"+al.Comment))
+			}
+		}
+	}
 	// contract variables bound to call results: unconstrained until the call happens
 	fr.binds = map[string]Val{}
 	fr.bindTypes = map[string]types.Type{}
@@ -979,7 +996,7 @@ func (x *Exec) loopHead(st *State, fr *Frame, li *loopInfo) bool {
 	if x.topC != nil {
 		ls = x.topC.Loops[li.index]
 	}
-	if ls == nil || (len(ls.Invariants) == 0 && ls.Decreases == nil && !ls.Cut) {
+	if ls == nil || (len(ls.Invariants) == 0 && ls.Decreases == nil && !ls.Cut && len(ls.BackAsserts) == 0) {
 		// range loops are cut automatically (implicit invariant: the hidden index is >= -1)
 		if strings.HasPrefix(li.head.Comment, "rangeindex.loop") || strings.HasPrefix(li.head.Comment, "rangeiter.loop") {
 			auto := &LoopSpec{Cut: true}
@@ -1007,6 +1024,28 @@ func (x *Exec) loopHead(st *State, fr *Frame, li *loopInfo) bool {
 			ls = &cp
 		}
 	}
+	// inside "loop k:" clauses, rangeindex means the hidden index of that very loop
+	if alias := x.loopIndexAlias(fr, li); alias != "" && alias != "rangeindex" {
+		cp := *ls
+		re := regexp.MustCompile(`\brangeindex\b`)
+		rw := func(cl []Clause) []Clause {
+			out := make([]Clause, len(cl))
+			for i, c := range cl {
+				c.Expr = re.ReplaceAllString(c.Expr, alias)
+				out[i] = c
+			}
+			return out
+		}
+		cp.Invariants = rw(ls.Invariants)
+		cp.BackAsserts = rw(ls.BackAsserts)
+		cp.Uses = rw(ls.Uses)
+		if ls.Decreases != nil {
+			d := *ls.Decreases
+			d.Expr = re.ReplaceAllString(d.Expr, alias)
+			cp.Decreases = &d
+		}
+		ls = &cp
+	}
 	env := x.envFor(st, fr)
 	fromInside := fr.prev != nil && li.body[fr.prev.Index]
 	if !fromInside {
@@ -1017,16 +1056,18 @@ func (x *Exec) loopHead(st *State, fr *Frame, li *loopInfo) bool {
 			c *cell
 		}
 		var impl []implInv
-		if x.checkMods {
-			for al := range li.cells {
-				c := fr.cells[al]
-				if c == nil {
-					continue
+		var zeroOff []*cell
+		for al := range li.cells {
+			c := fr.cells[al]
+			if c == nil {
+				continue
+			}
+			if sv, ok := st.cellVals[c].(*SliceV); ok {
+				if x.checkMods && ((sv.Base.IsInt() && sv.Base.I.Sign() == 0) || st.nonnil[sv.Base.String()]) {
+					impl = append(impl, implInv{c})
 				}
-				if sv, ok := st.cellVals[c].(*SliceV); ok {
-					if (sv.Base.IsInt() && sv.Base.I.Sign() == 0) || st.nonnil[sv.Base.String()] {
-						impl = append(impl, implInv{c})
-					}
+				if sv.Off.IsInt() && sv.Off.I.Sign() == 0 {
+					zeroOff = append(zeroOff, c)
 				}
 			}
 		}
@@ -1039,8 +1080,19 @@ func (x *Exec) loopHead(st *State, fr *Frame, li *loopInfo) bool {
 			nm[li.index] = append(nm[li.index], ii.c)
 		}
 		fr.implSlices = nm
+		zm := map[int][]*cell{}
+		for k, v := range fr.zeroOff {
+			zm[k] = v
+		}
+		zm[li.index] = zeroOff
+		fr.zeroOff = zm
 		// havoc
 		x.havocLoop(st, fr, li)
+		for _, c := range fr.zeroOff[li.index] {
+			if sv, ok := st.cellVals[c].(*SliceV); ok {
+				st.assume(Eq(sv.Off, IntC(0)))
+			}
+		}
 		for _, c := range fr.implSlices[li.index] {
 			if sv, ok := st.cellVals[c].(*SliceV); ok {
 				st.assume(Or(Eq(sv.Base, IntC(0)), Ge(sv.Base, st.alloc0)))
@@ -1080,6 +1132,12 @@ func (x *Exec) loopHead(st *State, fr *Frame, li *loopInfo) bool {
 		return false
 	}
 	x.checkClauses(st, env, ls.Invariants, "inv-keep", x.topKey, fmt.Sprintf("loop%d", li.index), false)
+	x.checkClauses(st, env, ls.BackAsserts, "assert", x.topKey, fmt.Sprintf("loop%d.backedge", li.index), false)
+	for _, c := range fr.zeroOff[li.index] {
+		if sv, ok := st.cellVals[c].(*SliceV); ok {
+			x.emit(st, fmt.Sprintf("%s/inv-keep:local-slice-offset-zero.%s@loop%d", x.topKey, c.name, li.index), "inv-keep", Eq(sv.Off, IntC(0)), nil)
+		}
+	}
 	for _, c := range fr.implSlices[li.index] {
 		if sv, ok := st.cellVals[c].(*SliceV); ok {
 			x.emit(st, fmt.Sprintf("%s/inv-keep:local-slice-fresh-or-nil.%s@loop%d", x.topKey, c.name, li.index), "inv-keep", Or(Eq(sv.Base, IntC(0)), Ge(sv.Base, st.alloc0)), nil)
@@ -1102,6 +1160,36 @@ func clauseLabel(c Clause, i int) string {
 		return c.Label
 	}
 	return fmt.Sprintf("%d", i)
+}
+
+// loopIndexAlias: the contract name (rangeindex__k) of the hidden index of a range loop.
+func (x *Exec) loopIndexAlias(fr *Frame, li *loopInfo) string {
+	var own *ssa.Alloc
+	for _, in := range li.head.Instrs {
+		if st, ok := in.(*ssa.Store); ok {
+			if al, ok := st.Addr.(*ssa.Alloc); ok && al.Comment == "rangeindex" {
+				own = al
+			}
+		}
+	}
+	if own == nil {
+		return ""
+	}
+	var all []*ssa.Alloc
+	for _, b := range fr.fn.Blocks {
+		for _, in := range b.Instrs {
+			if al, ok := in.(*ssa.Alloc); ok && al.Comment == "rangeindex" {
+				all = append(all, al)
+			}
+		}
+	}
+	sort.Slice(all, func(i, j int) bool { return allocOrder(all[i]) < allocOrder(all[j]) })
+	for k, al := range all {
+		if al == own {
+			return fmt.Sprintf("rangeindex__%d", k)
+		}
+	}
+	return ""
 }
 
 // emitSplit emits the obligation (kept for call sites that already hold a term).
@@ -1257,7 +1345,7 @@ func (x *Exec) envFor(st *State, fr *Frame) *Env {
 			ns = append(ns, named{al, c})
 		}
 	}
-	sort.Slice(ns, func(i, j int) bool { return ns[i].c.id < ns[j].c.id })
+	sort.Slice(ns, func(i, j int) bool { return allocOrder(ns[i].al) < allocOrder(ns[j].al) })
 	counts := map[string]int{}
 	isParam := map[string]bool{}
 	for _, p := range fr.fn.Params {
@@ -1288,6 +1376,8 @@ func (x *Exec) envFor(st *State, fr *Frame) *Env {
 		counts[name]++
 		vars[fmt.Sprintf("%s#%d", name, k)] = v
 		tys[fmt.Sprintf("%s#%d", name, k)] = t
+		vars[fmt.Sprintf("%s__%d", name, k)] = v
+		tys[fmt.Sprintf("%s__%d", name, k)] = t
 		if k > 0 && isParam[name] {
 			continue // a parameter name keeps meaning the parameter, not a shadowing local
 		}
@@ -1338,6 +1428,11 @@ func (x *Exec) checkFrame(st *State, fr *Frame, in ssa.Instruction, ref *T, key 
 		case "cell":
 			if strings.HasPrefix(key, "C:") {
 				alts = append(alts, Eq(ref, m.Ref))
+			}
+		case "anyfield":
+			pfx := fieldKey(m.Owner, m.Path)
+			if key == pfx || strings.HasPrefix(key, pfx+".") || strings.HasPrefix(key, pfx+"#") {
+				return
 			}
 		case "anyslice":
 			if strings.HasPrefix(key, "E:"+typeKey(m.ElemT)) {
@@ -1413,7 +1508,7 @@ func containsForall(t *T) bool {
 		return true
 	}
 	if t.Name == "exists" {
-		return false
+		return true
 	}
 	for _, a := range t.Args {
 		if containsForall(a) {
@@ -1443,7 +1538,20 @@ func instRewrite(t *T, terms []*T) *T {
 		return And(parts...)
 	}
 	if t.Name == "exists" {
-		return t
+		// dually: (exists x. P) <=> (exists x. P) || P[t]
+		n := len(t.Args) - 1
+		if n != 1 {
+			return t
+		}
+		v := t.Args[0]
+		parts := []*T{t}
+		for _, tm := range terms {
+			if tm.Sort != v.Sort || mentionsBound(tm) {
+				continue
+			}
+			parts = append(parts, Subst(t.Args[1], map[string]*T{v.Name: tm}))
+		}
+		return Or(parts...)
 	}
 	changed := false
 	args := make([]*T, len(t.Args))
@@ -1457,4 +1565,18 @@ func instRewrite(t *T, terms []*T) *T {
 		return t
 	}
 	return &T{Op: "app", Name: t.Name, Args: args, Sort: t.Sort}
+}
+
+// allocOrder: declaration order of a local (block index, then position in the block).
+func allocOrder(al *ssa.Alloc) int {
+	b := al.Block()
+	if b == nil {
+		return 0
+	}
+	for i, in := range b.Instrs {
+		if in == ssa.Instruction(al) {
+			return b.Index*100000 + i
+		}
+	}
+	return b.Index * 100000
 }
